@@ -213,7 +213,7 @@ func c16Corrupt(res *vlib.Result, pos int) {
 func C16Plan() *vlib.Plan {
 	p := &vlib.Plan{
 		Property: "C16", Level: "exploration",
-		Rule: "E-ENUM full product: sinful in {plain, with params, with sock=, with embedded '#', bracketed IPv6} x Encryption/Integrity in {unset, true, false}^2 x cipher list in {'', AES, AESGCM, 'AES,BLOWFISH', 'AES,3DES,BLOWFISH'} x ValidCommands in {none, [443], [443,444]} x lifetime in {0, 60 s} x version in {'', long, short} x direction (importer dials / minter dials) x tag; each pair: cache entries compared (id, key, Encryption/Integrity/cipher/commands, expiry), public form searched for the secret, policy text render/parse fixed point, then a real resumption handshake (no negotiation on the wire) with ping/pong both ways. Plus every single-character alteration of the secret in both directions. Non-trivial = mint succeeded; ids distinct by construction.",
+		Rule:   "E-ENUM full product: sinful in {plain, with params, with sock=, with embedded '#', bracketed IPv6} x Encryption/Integrity in {unset, true, false}^2 x cipher list in {'', AES, AESGCM, 'AES,BLOWFISH', 'AES,3DES,BLOWFISH'} x ValidCommands in {none, [443], [443,444]} x lifetime in {0, 60 s} x version in {'', long, short} x direction (importer dials / minter dials) x tag; each pair: cache entries compared (id, key, Encryption/Integrity/cipher/commands, expiry), public form searched for the secret, policy text render/parse fixed point, then a real resumption handshake (no negotiation on the wire) with ping/pong both ways. Plus every single-character alteration of the secret in both directions. Non-trivial = mint succeeded; ids distinct by construction.",
 		Assume: []string{"peer caches are private per case (no process-global state involved)"},
 	}
 	p.Gen = func(tier string, yield func(vlib.Case)) {
